@@ -74,6 +74,10 @@ structure PCfg where
   kind : PKind
   disableTrustOnFirstUse : Bool
   disableCustomSANs : Bool       -- unrelated to token reuse; present because configurations carry it
+  recordId : Str := []           -- the id of the provisioner's record in the admin database (empty: configured in ca.json);
+                                 -- a new one whenever the record is created (migration on the first enableAdmin start, removal and
+                                 -- re-creation through the admin API). Unrelated to token reuse: the derived ids of the cloud types are
+                                 -- built from `GetIDForToken` ("gcp/<name>", "aws/<name>"), not from `GetID`
   deriving Repr, DecidableEq
 
 /-- the token-id behaviour of a configured provisioner: only `disableTrustOnFirstUse` matters, and only
